@@ -134,6 +134,9 @@ func ExecOne(t *testing.T, p *Prop, tape *zsim.Tape, tier string) *Result {
 				vv.Trace = r.TraceString(60)
 				res.Viol = &vv
 			}
+			if descLive {
+				fmt.Fprintf(os.Stderr, "TRACE-LIVE\n%s\n", r.TraceString(200))
+			}
 			res.Desc = c.Desc
 			res.FP = zsim.Mix(r.Fingerprint(), c.StateFP)
 			res.Nontrivial = c.Nontrivial
